@@ -53,6 +53,11 @@ def cases(tier):
     for dm in ("IOU", "DSC"):
         for k in ((1, 2) if tier == "quick" else (1, 2, 3)):
             out.append({"name": "grouped_dm%s_k%d" % (dm, k), "what": "pipe", "dm": dm, "k": k, "up": 1, "ur": 1, "grouped": True})
+    # label maps WITHOUT any background voxel (k perfectly matched instances tile the whole array): the instance counts that the
+    # bookkeeping is checked against come from the pair object, which must not take the smallest label for background
+    for dm in (None, "IOU"):
+        for k in range(2, K + 1):
+            out.append({"name": "pipe_nobg_dm%s_k%d" % (dm, k), "what": "pipe", "dm": dm, "k": k, "up": 0, "ur": 0, "nobg": True})
     for n in range(0, K + 1):
         out.append({"name": "direct_len%d" % n, "what": "direct", "n": n})
     # value lists containing NaN entries (clDice 0/0, RVD of an empty reference): mean/std of such a list is NaN
@@ -175,6 +180,12 @@ def _run_pipe(case, T, MM):
     # concrete tiny matched pair: labels 1..k on both sides, then unmatched prediction label k+1 / reference label k+2
     ref = list(range(1, k + 1)) + ([0] if up else []) + ([k + 2] if ur else []) + [0]
     pred = list(range(1, k + 1)) + ([k + 1] if up else []) + ([0] if ur else []) + [0]
+    if case.get("nobg"):
+        # no background voxel at all: identical tilings, so the only realisable scores are those of a perfect match
+        assert not up and not ur
+        ref, pred = ref[:-1], pred[:-1]
+        for i in range(k):
+            base += [vals["IOU"][i] == 1, vals["DSC"][i] == 1, vals["ASSD"][i] == 0, vals["RVD"][i] == 0]
     n_pred, n_ref = k + up, k + ur
     eval_metrics = [getattr(Metric, m) for m in METRICS]
     grouped = bool(case.get("grouped"))
@@ -200,7 +211,7 @@ def _run_pipe(case, T, MM):
     IE._evaluate_instance = kernel
 
     def decode(m):
-        return {"what": "pipe", "dm": dm, "k": k, "up": up, "ur": ur, "thr": jsonable(thr, m), "unused_matcher": bool(jsonable(z3.Bool("unused_matcher_configured"), m)), "grouped": grouped,
+        return {"what": "pipe", "dm": dm, "k": k, "up": up, "ur": ur, "thr": jsonable(thr, m), "unused_matcher": bool(jsonable(z3.Bool("unused_matcher_configured"), m)), "grouped": grouped, "nobg": bool(case.get("nobg")),
                 "vals": {mm: [jsonable(v, m) for v in vals[mm]] for mm in METRICS}}
     h = H(PROP, case["name"], decode, replay_kind="pipe", max_witnesses=12)
 
@@ -409,6 +420,10 @@ def real_pipe(case, mode, expect):
     arrs = _realise_pipe(case)
     if arrs is None:
         return {"error": "abstract case not realisable"}
+    if case.get("nobg"):
+        # drop every voxel that is background on both sides (the separators of the realised layout)
+        keep = [j for j in range(len(arrs["ref"])) if arrs["ref"][j] or arrs["pred"][j]]
+        arrs = dict(arrs, ref=[arrs["ref"][j] for j in keep], pred=[arrs["pred"][j] for j in keep])
     mets = ["DSC", "IOU", "RVD"] + (["ASSD"] if case["dm"] == "ASSD" else [])
     cfg = {"input_type": "MATCHED_INSTANCE", "metrics": mets, "decision_metric": case["dm"], "decision_threshold": arrs["thr"], "global_metrics": []}
     if case.get("grouped"):
